@@ -35,8 +35,11 @@ def step (c : CS) (l : Line) : CS :=
       let c := if !acc ∧ (l.nat "maininit" ≠ 0 ∨ l.nat "alive" ≠ 1) then
                  mism c s!"SPEC[no-normal-start-after-reject] after the rejected blob ({c.desc}) MainInit={l.nat "maininit"} alive={l.nat "alive"}" else c
       -- after an acceptance MainInit succeeds and the TPM answers commands
-      let c := if acc ∧ (l.nat "maininit" ≠ 0 ∨ l.nat "alive" ≠ 1) then
-                 mism c s!"SPEC[accepted-blob-does-not-start] SetState accepted the {c.kind} blob ({c.desc}) but MainInit={l.nat "maininit"} alive={l.nat "alive"}" else c
+      -- (a volatile blob that itself records failure mode is resumed into failure mode — C17 — and MainInit reports it)
+      let blobFail : Bool := l.nat "blobfail" == 1
+      let c := if acc ∧ blobFail then branch c "door1/blob-records-failure-mode" else c
+      let c := if acc ∧ !blobFail ∧ (l.nat "maininit" ≠ 0 ∨ l.nat "alive" ≠ 1) then
+                 mism c s!"SPEC[accepted-blob-does-not-start] SetState accepted the {c.kind} blob ({c.desc}) but MainInit={l.nat "maininit"} alive={l.nat "alive"} (failing command {l.str "failcc"}, failure site {l.str "failfn"}:{l.nat "failline"})" else c
       -- the outermost header under the header model: what the model refuses must not be accepted
       let hv := if c.kind = "vol" then Model.Blob.headerRefusal c.head Gen.VOLATILE_STATE_MAGIC Gen.VOLATILE_STATE_VERSION
                 else Model.Blob.headerRefusal c.head Gen.PERSISTENT_ALL_MAGIC Gen.PERSISTENT_ALL_VERSION
@@ -51,7 +54,7 @@ def step (c : CS) (l : Line) : CS :=
       let vOk : Bool := l.nat "validate" == 0; let mOk : Bool := l.nat "maininit" == 0
       let c := branch c s!"door2/{c.kind}/validate={vOk}/maininit={mOk}"
       -- ValidateState gives the verdict MainInit acts on
-      let c := if vOk ≠ mOk then
+      let c := if vOk ≠ mOk ∧ ¬ (vOk ∧ l.nat "blobfail" = 1) then
                  mism c s!"SPEC[validate-disagrees] {c.kind} blob ({c.desc}) held by storage: ValidateState={l.nat "validate"} but MainInit={l.nat "maininit"}" else c
       let c := if mOk ∧ l.nat "alive" ≠ 1 then mism c s!"SPEC[accepted-blob-does-not-start] MainInit accepted the stored {c.kind} blob ({c.desc}) but the TPM does not answer (alive={l.nat "alive"})" else c
       -- both doors agree on the verdict for the same bytes
